@@ -108,7 +108,7 @@ def run(ctx, driver):
                 "file in the cwd or in sub-directories (with dots), stems with several dots, with and without extension; distinct = distinct (file, argv); "
                 "non-trivial = run that reaches the analysis")
     rng = ctx.rng("cli")
-    cases = [gen_case(rng, i) for i in range(42 if quick else 600)]
+    cases = [gen_case(rng, i) for i in range(ctx.n(42, 600))]
     results = pool.run_cases("harness.props.c16", "case_cli", cases, timeout=240, procs=12, init="_init_worker", deadline=ctx.deadline())
     ops = []
     for case, res in zip(cases, results):
